@@ -1173,6 +1173,9 @@ class Engine:
                 continue
             v = ev.ev(k.value, path, spec)
             ft = dict(S.BLOCK_FIELDS)[k.arg]
+            if k.arg == 'subregion' and isinstance(v, VObj) and v.cls == 'SCFG':
+                # a graph object passed as a region's sub-graph in value mode: an opaque identity
+                v = S.fresh(S.T_SUB, 'sub_of_obj')
             if isinstance(v, tuple) and v[0] == 'emptyseq':
                 v = S.seq_from_list(ft[1], [])
             if isinstance(v, V) and v.ty != ft:
@@ -1270,8 +1273,8 @@ class Engine:
         cur = If(S.dict_has(kinds, meta.t), S.dict_get(kinds, meta.t).t, IntVal(0))
         newk = self.dict_store(kinds, meta.t, cur + 1, path)
         self.assign_to(ev, ast.Attribute(value=ngn, attr='kinds', ctx=ast.Store()), newk, path)
-        self.assumptions_used.add('trusted contract: numba_scfg.core.datastructures.scfg:SCFG.__post_init__ (the meta region of a new '
-                                  'sub-graph: one "meta" name is taken from the shared generator; the region record itself is not modelled)')
+        self.assumptions_used.add('SCFG(...) of a sub-graph applies the proved contract of SCFG.__post_init__ (one "meta" name is taken from '
+                                  'the shared generator); the region record of a sub-graph is not modelled')
         return s
 
     def construct_obj(self, ev, clsname, node, path, spec):
@@ -1292,7 +1295,8 @@ class Engine:
         if pc is not None:
             # dataclass __post_init__: applied through its (assumed) contract
             env = {'self': obj.copy(), 'old': Namespace({'self': obj})}
-            self.assumptions_used.add('trusted contract: ' + pq)
+            if pc.trusted:
+                self.assumptions_used.add('trusted contract: ' + pq)
             for cn, text in pc.ensures.items():
                 nd = ast.parse(text, mode='eval').body
                 lhs = ast.unparse(nd.left)
@@ -2539,6 +2543,13 @@ class Engine:
             tgt_, fld, valn = st.value.args[0], st.value.args[1].value, st.value.args[2]
             ev_ = self.evaluator()
             obj = ev_.ev(tgt_, path, False)
+            if fld == 'region' and isinstance(obj, VObj) and obj.cls == 'SCFG' and 'region' in obj.f:
+                # the record of the region a graph belongs to: its kind and name are what contracts read (`self.region.kind`)
+                blk = ev_.ev(valn, path, False)
+                if isinstance(blk, V) and blk.ty == T_BLOCK:
+                    ref = VObj('RegionRef', {'kind': S.block_field(blk, 'kind'), 'name': S.block_field(blk, 'name')})
+                    self.assign_to(ev_, ast.Attribute(value=tgt_, attr='region', ctx=ast.Store()), ref, path)
+                    return [(path, None)]
             if fld in ('parent_region', 'region'):
                 ev_.ev(valn, path, False)
                 self.assumptions_used.add(BACKPTR)
